@@ -10,14 +10,17 @@ def _pay(rng, k):
 
 class Scenario:
     def __init__(self, rng, role='server', lenreq=False, hostile=0.0, with_close=True, steps=12, frag=0.0,
-                 close_mode=None, garbage=0.0):
+                 close_mode=None, garbage=0.0, race=0.0, on_close_raises=False):
         self.rng = rng
+        self.race = race                # probability that a local action shares its loop iteration with the next peer event
+        self.raced = 0
         self.frag = frag                # probability that a legal peer frame with a payload arrives fragmented
         self.close_mode = close_mode    # None (random eof/error) | 'eof' | 'error' | 'close' | 'cut'
         self.garbage = garbage          # probability that a hostile step is raw bytes rather than a well-formed frame
         self.raw_injected = 0
         self.fragmented = 0
         self.rec = Recorder(role, lenreq)
+        self.rec.on_close_raises = on_close_raises
         self.first = 2 if role == 'server' else 1
         self.peer_next = 1 if role == 'server' else 2       # next stream id the peer opens
         self.hostile = hostile
@@ -57,6 +60,32 @@ class Scenario:
                 break
             out.append(g.serialize())
         return out
+
+    def _race(self, label, fn, frame=None, outcome=('none',), close=None):
+        """the local action and the peer event are made ready in the SAME loop iteration, local action first: whatever
+        the action defers (done-callbacks) runs only after the peer event has been handled"""
+        rec = self.rec
+
+        def cb():
+            rec.label(*label)
+            try:
+                fn()
+            except Exception:
+                rec.eff('raised')
+        rec.loop.call_soon(cb)
+        self.raced += 1
+        if frame is not None:
+            rec.next_outcome = outcome
+            rec.t.inject_frame(FR.build(frame).serialize())
+        elif close == 'eof':
+            rec.t.inject_eof()
+        elif close == 'error':
+            rec.t.inject_error()
+        rec.settle()
+        rec.next_outcome = ('none',)
+        if close:
+            self.closed = True
+            self.close_used = 'race-' + close
 
     def _oid_next(self):
         return len(self.rec.objs)
@@ -109,12 +138,12 @@ class Scenario:
         m['subscribed'] = True
         self.rec.settle()
 
-    def do_channel(self):
+    def do_channel(self, hp=None, hs=None):
         from rsocket.payload import Payload
         self.k += 1
         md, d = _pay(self.rng, self.k)
-        hp = self.rng.random() < 0.6
-        hs = self.rng.random() < 0.85
+        hp = self.rng.random() < 0.6 if hp is None else hp
+        hs = self.rng.random() < 0.85 if hs is None else hs
         oid = self._oid_next()
         pub = RecPublisher(self.rec) if hp else None
         box = {}
@@ -153,6 +182,20 @@ class Scenario:
         r = self.rng.random()
         if m['kind'] == 'rr':
             if not m['done']:
+                if self.rng.random() < self.race:
+                    x = self.rng.random()
+                    sid = m['sid']
+                    if x < 0.35:
+                        fr, cl = {'t': 'Payload', 'sid': sid, 'ign': False, 'follows': False, 'complete': True, 'next': True,
+                                  'md': b'', 'd': b'late'}, None
+                    elif x < 0.7:
+                        fr, cl = {'t': 'Error', 'sid': sid, 'ign': False, 'code': 0x201, 'd': b'late'}, None
+                    else:
+                        fr, cl = None, self.rng.choice(['eof', 'error'])
+                    self._race(('futcancel', oid), lambda: m['fut'].cancel(), fr, close=cl)
+                    m['done'] = True
+                    m['peer_term'] = True
+                    return
                 self.rec.label('futcancel', oid)
                 self.rec.act(lambda: m['fut'].cancel())
                 m['done'] = True
@@ -168,10 +211,27 @@ class Scenario:
             if m['done']:
                 self.legal = False      # credit for a finished stream: our own application misbehaving
         elif r < 0.7:
-            self.rec.label('cancel', oid)
-            self.rec.act(lambda: obj.cancel())
             if m['done']:
                 self.legal = False
+            if self.rng.random() < self.race and not m.get('peer_term'):
+                sid = m['sid']
+                x = self.rng.random()
+                if x < 0.4:
+                    fr = {'t': 'Payload', 'sid': sid, 'ign': False, 'follows': False, 'complete': self.rng.random() < 0.5,
+                          'next': True, 'md': b'', 'd': b'inflight'}
+                elif x < 0.7:
+                    fr = {'t': 'Payload', 'sid': sid, 'ign': False, 'follows': False, 'complete': True, 'next': False,
+                          'md': b'', 'd': b''}
+                else:
+                    fr = {'t': 'Error', 'sid': sid, 'ign': False, 'code': 0x201, 'd': b'late'}
+                if fr['t'] == 'Error' or fr.get('complete'):
+                    m['peer_term'] = True
+                self._race(('cancel', oid), lambda: obj.cancel(), fr)
+                m['done'] = True
+                m['cancelled'] = True
+                return
+            self.rec.label('cancel', oid)
+            self.rec.act(lambda: obj.cancel())
             m['done'] = True
             m['cancelled'] = True
         elif m['kind'] == 'rc' and m.get('pub') is not None and m['pub'].subscriber is not None:
@@ -255,6 +315,18 @@ class Scenario:
                     which = self.rng.choice(['result', 'result', 'error', 'cancel'])
                     from rsocket.payload import Payload
                     md, d = _pay(self.rng, self.k)
+                    if self.rng.random() < self.race and not st.get('cancel_sent'):
+                        cancel = {'t': 'Cancel', 'sid': sid, 'ign': False}
+                        if which == 'result':
+                            self._race(('appresolve', st['oid'], ('result', md, d)), lambda: fut.set_result(Payload(d, md)), cancel)
+                        elif which == 'error':
+                            self._race(('appresolve', st['oid'], ('error',)), lambda: fut.set_exception(RuntimeError('app')), cancel)
+                        else:
+                            fut._verif_app_cancel = True
+                            self._race(('appresolve', st['oid'], ('cancel',)), lambda: fut.cancel(), cancel)
+                        st['cancel_sent'] = True
+                        st['done'] = True
+                        return
                     if which == 'result':
                         self.rec.label('appresolve', st['oid'], ('result', md, d))
                         self.rec.act(lambda: fut.set_result(Payload(d, md)))
@@ -422,6 +494,8 @@ class Scenario:
         rng = self.rng
         try:
             for _ in range(self.steps):
+                if self.closed:
+                    break
                 x = rng.random()
                 live_mine = list(self.mine)
                 live_theirs = list(self.theirs)
@@ -438,7 +512,7 @@ class Scenario:
                     self.peer_on_theirs(rng.choice(live_theirs))
                 else:
                     self.peer_open()
-            if self.with_close:
+            if self.with_close and not self.closed:
                 mode = self.close_mode or rng.choice(['eof', 'error'])
                 self.pre_close_sent = len(self.rec.t.sent)
                 if mode == 'cut':
